@@ -130,19 +130,22 @@ fn raw_pat(long: bool) -> BoxedStrategy<Vec<u8>> {
 }
 
 fn pat_op(o: PatOpts) -> BoxedStrategy<PatOp> {
-    let kind = prop_oneof![
-        40 => Just(0u8),       // fresh
-        6 => Just(4u8),        // duplicate
-        9 => Just(5u8),        // proper prefix
-        9 => Just(6u8),        // proper suffix
-        6 => Just(7u8),        // infix
-        8 => Just(8u8),        // extension (earlier is a prefix of new)
-        6 => Just(9u8),        // one byte changed
-        4 => Just(10u8),       // case flipped
-        3 => Just(11u8),       // high nybble flipped
-        8 => Just(12u8),       // prepend (earlier is a suffix of new)
-        o.w_empty => Just(13u8), // the empty pattern
+    let mut alts: Vec<(u32, BoxedStrategy<u8>)> = vec![
+        (40, Just(0u8).boxed()),  // fresh
+        (6, Just(4u8).boxed()),   // duplicate
+        (9, Just(5u8).boxed()),   // proper prefix
+        (9, Just(6u8).boxed()),   // proper suffix
+        (6, Just(7u8).boxed()),   // infix
+        (8, Just(8u8).boxed()),   // extension (earlier is a prefix of new)
+        (6, Just(9u8).boxed()),   // one byte changed
+        (4, Just(10u8).boxed()),  // case flipped
+        (3, Just(11u8).boxed()),  // high nybble flipped
+        (8, Just(12u8).boxed()),  // prepend (earlier is a suffix of new)
     ];
+    if o.w_empty > 0 {
+        alts.push((o.w_empty, Just(13u8).boxed())); // the empty pattern
+    }
+    let kind = proptest::strategy::Union::new_weighted(alts);
     (kind, any::<u16>(), any::<u16>(), any::<u8>(), raw_pat(o.long))
         .prop_map(|(kind, from, a, b, raw)| PatOp { kind, from, a, b, raw })
         .boxed()
